@@ -1,5 +1,6 @@
 """Generators of condition terms: leaves of every class x constructor with mostly well-typed
 arguments drawn from the document under test, and and/or/xor trees with null operands."""
+import copy
 from .terms import Leaf, Null, Bin, dsl_methods, COND_CLASSES
 from .valgen import Gen, TYPES, STRS, KEYSTRS
 
@@ -237,4 +238,7 @@ class CondGen:
                 return Null()
             return self.leaf(doc, cls=self.r.choice(classes) if classes else None)
         op = self.r.choice(["and", "or", "xor"])
-        return Bin(op, self.tree(doc, depth - 1, classes, null_p), self.tree(doc, depth - 1, classes, null_p))
+        a = self.tree(doc, depth - 1, classes, null_p)
+        # one combination in twelve repeats an operand (a xor a is false everywhere; a and a is a, but not the same object)
+        b = copy.deepcopy(a) if self.r.random() < 0.08 else self.tree(doc, depth - 1, classes, null_p)
+        return Bin(op, a, b)
